@@ -194,6 +194,16 @@ func attrNames(r *rng.R, n int) []string {
 			out = append(out, s)
 		case i%7 == 6:
 			out = append(out, fmt.Sprintf("ünï_%d_é", i))
+		case i%7 == 3:
+			// siblings of equal length that differ in one byte only: at index 11 (the
+			// last byte of the name hash's first 12-byte block) or at index 23
+			b := []byte("calibration_coefficient_x")
+			at := 11
+			if i >= 17 {
+				at = 23
+			}
+			b[at] = byte('0' + i/7)
+			out = append(out, string(b))
 		default:
 			out = append(out, fmt.Sprintf("a%d", i))
 		}
